@@ -3,7 +3,7 @@ synthetic energies); every 16th run index goes to fe_app_sim in statics mode wit
 FE-level helper-VJP / adjoint-function-space audit switched on."""
 from sim import adjoint_sim, fe_app_sim
 
-FE_EVERY = 16
+FE_EVERY = 24
 
 
 def gen_program(rng, prop, tier, run_index):
